@@ -220,6 +220,7 @@ fn search(unit: &str, depth: usize) -> Value {
             }
         }
         "column" => return col::column(depth),
+        "sqlexpr" => return sql::expr(depth),
         "sqlorder" => return sql::order(depth),
         "sqlrange" => return sql::range(depth),
         "sqlagg" => return sql::agg(depth),
